@@ -9,7 +9,7 @@ CLAIM = ('src/node/eviction.cpp (static functions reached by including the .cpp)
 LINK = []
 COMMON = dict(link=LINK, nofmt=True, timeout=300, diff_runs=16)
 HARNESSES = [
-    H('cmp_swo', 'evict.cpp', 'h_cmp_swo', variants=[{'CMP': i} for i in range(7)], unwind=4,
+    H('cmp_swo', 'evict.cpp', 'h_cmp_swo', variants=[{'CMP': i} for i in range(7)], unwind=4, backends=['default', 'cvc5int'],   # cvc5 with the integer encoding decides comparators that a change routes through a division by a constant (SAT stalls there)
       functions=['ReverseCompareNodeMinPingTime', 'ReverseCompareNodeTimeConnected', 'CompareNetGroupKeyed', 'CompareNodeBlockTime', 'CompareNodeTXTime', 'CompareNodeBlockRelayOnlyTime', 'CompareNodeNetworkTime'],
       bounds='3 candidates, all fields full width', **COMMON),
     H('erase_last_k', 'evict.cpp', 'h_erase_last_k', variants=[{'NC': 2, 'CMP': 5, 'PRED': 1}, {'NC': 3, 'CMP': 4, 'PRED': 0}, {'NC': 4, 'CMP': 2, 'PRED': 0}],
